@@ -925,11 +925,50 @@ def seam_demo(res):
     res.notes['seam_same_piece_probe'] = out
 
 
+def reuse_across_refinement(res, rng, tier):
+    """One estimator kept over an adaptive loop on ONE growing mesh (as example.py keeps it): after every local refinement
+    its indicators on the current leaves must be those of an estimator created now (serial path)."""
+    for cname in (('UnitSquare', 'Circle') if tier == 'quick' else ('UnitSquare', 'Circle', 'LShape', 'PiSquare')):
+        gamma, mesh = search_mesh(rng, cname, 'uniform', tier)
+        est = make_estimator(mesh, N_poly=5)
+
+        def r(t, x_hat, g):
+            x = g(np.asarray(x_hat, dtype=float))
+            return np.asarray(t, dtype=float) * (1.0 + x[0]) + x[1] ** 2
+        hist = []
+        for step in range(3 if tier == 'quick' else 5):
+            elems = list(mesh.leaf_elements)
+            try:
+                with silence_stdout():
+                    old = np.array(est.estimate_sobolev(elems, r), dtype=float)
+                    old_w = np.array(est.estimate_weighted_l2(elems, r), dtype=float)
+            except Exception as exc:  # noqa: BLE001
+                report(res, 'C09:estimator-reuse-raises:%s' % cname, dict(curve=cname, step=step, error=repr(exc)[:300], refinements=hist))
+                break
+            fresh_est = make_estimator(mesh, N_poly=5)
+            with silence_stdout():
+                new = np.array(fresh_est.estimate_sobolev(elems, r), dtype=float)
+                new_w = np.array(fresh_est.estimate_weighted_l2(elems, r), dtype=float)
+            res.count(('reuse-across-refinement', cname, step, len(elems)), True)
+            if old.shape != new.shape or not np.array_equal(old, new) or not np.array_equal(old_w, new_w):
+                report(res, 'C09:estimator-reuse-differs-from-fresh:%s' % cname,
+                       dict(curve=cname, step=step, leaves=len(elems), refinements=hist,
+                            max_abs_diff=float(np.max(np.abs(old - new))) if old.shape == new.shape else None,
+                            history='one ErrorEstimator used before and after local refinements of its mesh (serial path)'))
+                break
+            e = rng.choice(elems)
+            ax = rng.choice([0, 1])
+            with silence_stdout():
+                mesh.refine_axis(e, ax)
+            hist.append(dict(elem=describe(e), axis=ax))
+
+
 def search(res, tier, boost=False):
     rng = seed_rng(res.seed, 'C09s')
     thor = tier != 'quick'
     worst = {}
     seam_demo(res)
+    reuse_across_refinement(res, seed_rng(res.seed, 'C09reuse'), tier)
     mult = 2 if boost else 1
     # 1. polynomial residuals, all orders: exact within the order
     n_poly = (6 if not thor else 40) * mult
